@@ -513,9 +513,10 @@ where
                 dim = 1;
             }
         }
+        // pruning can remove more nodes than the layer added
         visitor.finish_layer(
             layer,
-            dd.len() - old_len,
+            dd.len().saturating_sub(old_len),
             dd.len() - dd.tree.num_terminals(),
             dd.tree.num_terminals(),
         );
